@@ -295,8 +295,22 @@ def run_check(tier, seed):
         vars_ = {"major": tag["major"], "minor": tag["minor"], "patch": tag["patch"], "pre": tag["pre"], "post": tag["post"], "distance": distance,
                  "dirty": dirty, "bumped_branch": branch, "bumped_hash": "abcdef0123", "custom": {}}
         argv = ["--source=stdin", "--output-format=zerv", f"--hash-branch-len={hash_len}"] + ([f"--post-mode={mode_flag}"] if mode_flag else [])
+        # overrides on top of the object, each alone and combined: the flow decisions must follow the overridden state, exactly as on source none
+        e_branch, e_distance, e_dirty = branch, distance, dirty
+        if rng.random() < 0.5:
+            for k in rng.sample(["distance", "branch", "dirty"], rng.choice([1, 1, 1, 2, 3])):
+                if k == "distance":
+                    e_distance = rng.choice([0, 0, 1, 2, 5, 17])
+                    argv.append(f"--distance={e_distance}")
+                elif k == "branch":
+                    e_branch = rng.choice(BRANCHES)
+                    argv.append(f"--bumped-branch={e_branch}")
+                else:
+                    e_dirty = rng.choice([True, False])
+                    argv.append("--dirty" if e_dirty else "--no-dirty")
+            rng.shuffle(argv)
         cases.append(flw("zerv", zgen.enc_zerv(FULL, vars_), argv, now))
-        laws.append((tag, branch, distance, dirty, None, None, None, mode_flag, hash_len, DEFAULT_RULES))
+        laws.append((tag, e_branch, e_distance, e_dirty, None, None, None, mode_flag, hash_len, DEFAULT_RULES))
     res = correspond(run, "stdin_object_states", cases, **kw)
     for (c, r, m, v), law in zip(res, laws):
         check_law(run, "stdin_object_states", c, r, law)
@@ -328,5 +342,5 @@ def run_check(tier, seed):
 
 RULE = ("requests are `zerv flow` argument vectors over the product of the quantifier: tags (final and pre-release, both formats) x branch names (rule names, "
         "rule name plus suffix without slash, nested paths, digit segments, non-ASCII, empty) x distance x dirty x --post x label/num flags x post mode x "
-        "hash length 1-10 x random rule lists, on sources none and stdin; results are compared with the model and judged by an independent Python "
+        "hash length 1-10 x random rule lists, on sources none and stdin (stdin objects also under --distance / --bumped-branch / --dirty overrides); results are compared with the model and judged by an independent Python "
         "reference of the flow law incl. its own SipHash-1-3; dev is compared as present/absent within the wall-clock window; non-trivial = ahead or dirty state")
